@@ -846,9 +846,12 @@ def compare_op(op, ri, rm, tol=1e-9, errclass=True):
         vi, vm = ri["ok"], rm["ok"]
         if vm.get("fault"):
             return "heap-fault: the reference-level model faulted (a method program broke the ownership discipline)"
-        si, sm = sorted(map(list, vi["shared"])), sorted(map(list, vm["shared"]))
+        # verdict on mutable containers only; sharing of frozen cells (nested filter dicts, arrays) is recorded,
+        # not judged: it is harmless as long as nothing writes them, and that shows as a changed object
+        si = sorted([a, b, m] for a, b, m, *_ in vi["shared"] if m)
+        sm = sorted([a, b, m] for a, b, m, *_ in vm["shared"] if m)
         if si != sm:
-            return f"heap-shared: objects sharing cells [a, b, mutable, filter dicts, arrays]: impl {si} != model {sm}"
+            return f"heap-shared: user-held objects sharing mutable containers [a, b, how many]: impl {si} != model {sm}"
         extra = sorted(set(vi["changed"]) - set(vm["changed"]))
         if extra:
             return f"heap-changed: changed although the model says the last calls cannot touch them: {extra}"
